@@ -17,7 +17,7 @@ import (
 	"verifharness/enc"
 
 	"github.com/Comcast/sheens/core"
-	_ "github.com/Comcast/sheens/interpreters/ecmascript"
+	"github.com/Comcast/sheens/interpreters/ecmascript"
 	"github.com/Comcast/sheens/match"
 )
 
@@ -111,6 +111,10 @@ func JS(ops []Op) string {
 			// bindings that contain themselves: every recursive reader of the state (the matcher, the JSON encoder) would
 			// never come back
 			b.WriteString("var c__ = {}; c__.self = c__; _.bindings[\"?x\"] = c__; _.bindings[\"k\"] = c__; return _.bindings;\n")
+		case "matchdeep":
+			// (extended interpreter) the matcher is handed a value nested a million deep: every recursive reader of it
+			// (the JSON encoder first) would exhaust the stack, which ends the process
+			b.WriteString("var d__ = []; for (var i__ = 0; i__ < 1000000; i__++) { d__ = [d__]; } _.match(d__, {}, {});\n")
 		case "retnan":
 			// a number that is not JSON (the state could not be written out)
 			b.WriteString("_.bindings[\"k\"] = [1, {\"x\": 0 / 0}]; return _.bindings;\n")
@@ -183,7 +187,7 @@ func Native(ops []Op, partial bool) func(context.Context, match.Bindings, core.S
 				}
 			case "throw", "emitbad", "retgetter", "throwobj":
 				return fail(errBoom)
-			case "retscalar", "retcyclic", "retcyclicobj", "retnan":
+			case "retscalar", "retcyclic", "retcyclicobj", "retnan", "matchdeep":
 				return fail(errors.New("42 (int64) isn't Bindings (native)"))
 			case "loop":
 				select {
@@ -206,7 +210,19 @@ func Native(ops []Op, partial bool) func(context.Context, match.Bindings, core.S
 // ---------------------------------------------------------------- building the real spec
 
 func actionSource(ops []Op) *core.ActionSource {
+	for _, o := range ops {
+		if o.Name == "matchdeep" {
+			return &core.ActionSource{Interpreter: "ecmascript-ext", Source: JS(ops)}
+		}
+	}
 	return &core.ActionSource{Interpreter: "ecmascript", Source: JS(ops)}
+}
+
+func init() {
+	// the extended interpreter (_.match and friends), as interpreters.Standard registers it
+	ext := ecmascript.NewInterpreter()
+	ext.Extended = true
+	core.DefaultInterpreters["ecmascript-ext"] = ext
 }
 
 // Build makes an uncompiled core.Spec.
